@@ -149,6 +149,11 @@ func (te *TwitterExtractor) getTweetIdFromURL(tweetURL string) string {
 		tweetURL = "http:" + tweetURL
 	}
 
+	// ParseRequestURI doesn't expect a fragment, it is not part of the path
+	if i := strings.IndexByte(tweetURL, '#'); i >= 0 {
+		tweetURL = tweetURL[:i]
+	}
+
 	parsedURL, err := nurl.ParseRequestURI(tweetURL)
 	if err != nil {
 		return ""
